@@ -71,6 +71,10 @@ Fn(name) ==
     [] name = "isbool" -> Fun("M3", <<"x">>, InstOf(X, "xs:boolean"))                    \* a boolean key
     [] name = "tag" -> Fun("M4", <<"x">>, If(InstOf(X, "xs:integer"), Lit(1), If(InstOf(X, "xs:decimal"), Lit(2),
                                              If(InstOf(X, "xs:double"), Lit(3), Lit(4)))))
+    (* the function argument is a static function CALL that returns the function item: head((abs#1, string#1)) *)
+    [] name = "headabs" -> SCall("S7", "head", <<Cat(Ref("abs", 1), Ref("string", 1))>>)
+    (* a predicate whose body is a let expression *)
+    [] name = "letpred" -> Fun("P5", <<"x">>, Let("k", X, Op("lt", Var("k"), Lit(2))))
     (* maps and arrays used AS FUNCTIONS (3.1) *)
     [] name = "arr3" -> Arr(<<Lit(10), Lit(20), Lit(30)>>)
     [] name = "map3" -> MapLit(<<1, 2, 3>>, <<Lit(10), Lit(20), Lit(30)>>)
@@ -89,8 +93,8 @@ Fn(name) ==
     [] name = "f3" -> Fun("A3", <<"a", "b", "c">>, Op("+", Op("*", Op("+", Op("*", A, Lit(10)), Bv), Lit(10)), Var("c")))
     [] name = "concat3" -> Ref("concat", 3)
 
-Unary == {"dbl", "addk", "dup", "abs", "nestfold"} \cup (IF Big THEN {"drop", "nesteach", "p7", "powp", "arr3", "map3"} ELSE {})
-Preds == {"odd", "ltk"} \cup (IF Big THEN {"any", "ltp", "mapb"} ELSE {})
+Unary == {"dbl", "addk", "dup", "abs", "nestfold"} \cup (IF Big THEN {"drop", "nesteach", "p7", "powp", "arr3", "map3", "headabs"} ELSE {})
+Preds == {"odd", "ltk"} \cup (IF Big THEN {"any", "ltp", "mapb", "letpred"} ELSE {})
 NumBinary == {"sub", "shift"} \cup (IF Big THEN {"subk"} ELSE {})
 SeqBinary == {"snoc", "cons"}
 FoldNamed == {"concat2"}                  \* a NAMED function reference as the fold function (string result: terminal)
@@ -108,7 +112,7 @@ AllNames == Unary \cup Preds \cup Binary \cup PairOnly \cup Keys \cup {"k7", "f3
 Names == {"dbl", "addk", "dup", "drop", "abs", "nestfold", "nesteach", "p7", "powp", "odd", "ltk", "any", "ltp",
           "sub", "shift", "snoc", "cons", "subk", "pow", "concat2", "negate", "mod2", "const", "modk",
           "k7", "f3", "concat3", "str", "isint", "isbool", "tag", "ident", "string1",
-          "arr3", "map3", "mapb", "number1", "nankey", "zerokey", "emptykey", "xtype"}
+          "arr3", "map3", "mapb", "headabs", "letpred", "number1", "nankey", "zerokey", "emptykey", "xtype"}
 FV == [name \in Names |-> Eval(Fn(name), EmptyEnv)[1]]
 FnVal(name) == FV[name]
 Ints(ns) == [j \in 1..Len(ns) |-> I(ns[j])]
